@@ -54,13 +54,17 @@ def cursor (s : Stream) : StreamCursor := ⟨s.prev.generationsCount, s.cur.gene
 
 def totalSize (s : Stream) : Nat := s.prev.size + s.cur.size + s.new.size
 
+/-- `add_value`: the value goes to the named generation of the previous / current data, or to the last
+generation of the new values -/
+def addToSource (s : Stream) (v : ValueAggregate) : Generation → ER Stream
+  | .previous i => (s.prev.addValueToGeneration v i).bind fun m => .ok { s with prev := m }
+  | .current i => (s.cur.addValueToGeneration v i).bind fun m => .ok { s with cur := m }
+  | .new => (s.new.addToLastGeneration v).bind fun m => .ok { s with new := m }
+
 /-- `add_value` + `check_stream_size_limit` (the value is already in when the limit error is raised) -/
-def addValue (s : Stream) (v : ValueAggregate) (g : Generation) : ER Stream := do
-  let s' ← match g with
-    | .previous i => do pure { s with prev := ← s.prev.addValueToGeneration v i }
-    | .current i => do pure { s with cur := ← s.cur.addValueToGeneration v i }
-    | .new => do pure { s with new := ← s.new.addToLastGeneration v }
-  if s'.totalSize ≥ Gen.streamMaxSize then uncatchable .streamSizeLimitExceeded else pure s'
+def addValue (s : Stream) (v : ValueAggregate) (g : Generation) : ER Stream :=
+  (s.addToSource v g).bind fun s' =>
+    if s'.totalSize ≥ Gen.streamMaxSize then uncatchable .streamSizeLimitExceeded else .ok s'
 
 /-- `update_generations`: every value of the `i`-th slice gets generation `start + i` written into its
 state of the result trace -/
